@@ -249,6 +249,12 @@ def oracle(case, res, extra):
                 res.stats["numeric_values_checked"] += 1
                 got = Fraction(y)
                 err = abs(got - exp)
+                # an expression whose terms cancel EXACTLY has no significant digits to speak of: sympy's numeric evaluation of such an
+                # expression leaves a residue like 4e-124 — accepted when it is below 1e-14 of the largest intermediate magnitude
+                inter = getattr(exp, "inter", Fraction(0))
+                if exp == 0 and err <= max(inter, Fraction(1)) * Fraction(1, 10**14):
+                    res.stats["exact_zero_with_numeric_residue"] += (1 if err else 0)
+                    continue
                 if err > abs(exp) * Fraction(1, 10**14) and err > Fraction(1, 10**300):
                     res.violation("failing-input", f"numeric value of {kk[0]} {'.'.join(path) or 'root'}.{kk[1]} is not exact to 15 significant digits",
                                   {"qref": case.qref, "assignments_in_order": list(total.items())}, {"value": y, "expression": str(x)}, float(exp))
